@@ -26,17 +26,30 @@ func c09Program(cases []c09Case, arms []int, forms []int, dflt bool, ctx int) st
 	if c09Foreign != 0 {
 		sb.WriteString("type W =\n  | Fx\n  | Fy of int\n\n")
 	}
-	sb.WriteString("type U =\n")
-	for _, c := range cases {
-		if c.payload == "" {
+	if ctx == 8 || ctx == 9 {
+		// a GENERIC union; the payload of the first case is the type parameter
+		sb.WriteString("type U<T> =\n")
+	} else {
+		sb.WriteString("type U =\n")
+	}
+	for i, c := range cases {
+		pl := c.payload
+		if (ctx == 8 || ctx == 9) && i == 0 {
+			pl = "T"
+		}
+		if pl == "" {
 			sb.WriteString("  | " + c.name + "\n")
 		} else {
-			sb.WriteString("  | " + c.name + " of " + c.payload + "\n")
+			sb.WriteString("  | " + c.name + " of " + pl + "\n")
 		}
 	}
 	sb.WriteString("\n")
 	ind := "  "
 	switch ctx {
+	case 8: // the matched value's type argument is still undetermined when the match is parsed
+		sb.WriteString("let f x0 =\n  let u = " + cases[0].name + " x0\n")
+	case 9: // a concrete instance of the generic union
+		sb.WriteString("let f (u: U<int>) =\n")
 	case 0:
 		sb.WriteString("let f (u: U) =\n")
 	case 1: // after a let, inside an if branch
@@ -77,6 +90,9 @@ func c09Program(cases []c09Case, arms []int, forms []int, dflt bool, ctx int) st
 		}
 		c := cases[a]
 		pat := c.name
+		if (ctx == 8 || ctx == 9) && a == 0 && c.payload == "" {
+			pat += " _" // the first case of the generic union carries the type parameter
+		}
 		if c.payload != "" {
 			switch forms[i] % 3 {
 			case 0:
@@ -207,6 +223,10 @@ func vC09(seed int64, count int, extra []string) {
 						forms[i] = r.Intn(3)
 					}
 					c09Check(cases, arms, forms, dflt, 0)
+					if r.Intn(3) == 0 {
+						c09Check(cases, arms, forms, dflt, 8+r.Intn(2))
+						vstat("c09.generic-union")
+					}
 					if r.Intn(4) == 0 {
 						// a repeated arm covers nothing new
 						k := r.Intn(len(arms))
